@@ -183,3 +183,116 @@ Definition generated_zero_half (full : t3) (res : fl * fl * fl) (target : Z) : b
 Lemma generated_zero_half_refuted :
   generated_zero_half (3, 3, 3) ((1%positive, 0), (1%positive, 0), (1%positive, 2)) 1 = true.
 Proof. vm_compute. reflexivity. Qed.
+
+(* ---------- the whole level loop ---------- *)
+
+(* two arrays with the same extents and the same voxels *)
+Definition arr_eq (a b : arr) : Prop :=
+  a_sh a = a_sh b /\ a_c a = a_c b /\
+  forall c p, 0 <= c < a_c a -> (forall ax, 0 <= get3 ax p < get3 ax (a_sh a)) ->
+    a_get a c p = a_get b c p.
+
+(* a downscaler only looks at voxels inside the array *)
+Definition ds_ext_prop (ds : t3 -> arr -> arr) : Prop :=
+  forall f a b, (forall ax, get3 ax f = 1 \/ get3 ax f = 2) ->
+    (forall ax, 0 < get3 ax (a_sh a)) -> arr_eq a b -> arr_eq (ds f a) (ds f b).
+
+Lemma stride_ext : ds_ext_prop ds_stride.
+Proof.
+  intros f a b Hf Hpos [Es [Ec Ev]]. unfold arr_eq. cbn [ds_stride a_sh a_c a_get]. unfold ds_shape.
+  rewrite Es. repeat split; try assumption. intros c p Hc Hp. apply Ev; [assumption|].
+  intro ax. specialize (Hp ax). rewrite <- Es in Hp. unfold cdiv3, mul3 in *. rewrite get3_zip3 in *.
+  specialize (Hpos ax). unfold ceil_div in Hp. destruct (Hf ax) as [E|E]; rewrite E in *; lia.
+Qed.
+
+Lemma avg_ext : ds_ext_prop ds_avg.
+Proof.
+  intros f a b Hf Hpos [Es [Ec Ev]]. unfold arr_eq. cbn [ds_avg a_sh a_c a_get]. unfold ds_shape.
+  rewrite <- Es. repeat split; try assumption. intros c p Hc Hp.
+  f_equal. f_equal. apply map_ext_in. intros o Ho. rewrite in_offs in Ho. apply Ev; [assumption|].
+  intro ax. specialize (Hp ax). specialize (Ho ax). specialize (Hpos ax).
+  unfold cdiv3, mul3, add3, min3, sub3 in *. rewrite !get3_zip3, ?get3_one3 in *.
+  destruct (Hf ax) as [E|E]; rewrite E in *; lia.
+Qed.
+
+Lemma majority_ext : ds_ext_prop ds_majority.
+Proof.
+  intros f a b Hf Hpos [Es [Ec Ev]]. unfold arr_eq. cbn [ds_majority a_sh a_c a_get]. unfold ds_shape.
+  rewrite <- Es. repeat split; try assumption. intros c p Hc Hp.
+  f_equal. apply map_ext_in. intros o Ho. apply filter_In in Ho. destruct Ho as [Ho Hlt].
+  rewrite in_offs in Ho. rewrite forall3_2_spec in Hlt. apply Ev; [assumption|].
+  intro ax. specialize (Hp ax). specialize (Ho ax). specialize (Hlt ax). apply Z.ltb_lt in Hlt.
+  unfold cdiv3, mul3, add3 in *. rewrite !get3_zip3 in *.
+  split; [|exact Hlt]. destruct (Hf ax) as [E|E]; rewrite E in *; lia.
+Qed.
+
+Section Loop.
+
+Variable ds : t3 -> arr -> arr.
+Variable poison : Z.
+Hypothesis ds_shape : ds_shape_prop ds.
+Hypothesis ds_local : ds_local_prop ds.
+Hypothesis ds_ext : ds_ext_prop ds.
+
+Lemma factors_ch_indep : forall c1 c2 s0 s1, factors (geom_of c1 s0 s1) = factors (geom_of c2 s0 s1).
+Proof. reflexivity. Qed.
+
+Lemma pyramid_cons2 : forall ch s0 s1 rest lvl,
+  pyramid ds poison ch (s0 :: s1 :: rest) lvl
+  = bind (next_level ds poison ch s0 s1 lvl) (fun nl =>
+    bind (pyramid ds poison ch (s1 :: rest) nl) (fun r => Ok (nl :: r))).
+Proof. reflexivity. Qed.
+
+Lemma pyramid_ref_cons2 : forall s0 s1 rest lvl,
+  pyramid_ref ds (s0 :: s1 :: rest) lvl
+  = ds (factors (geom_of (a_c lvl) s0 s1)) lvl
+    :: pyramid_ref ds (s1 :: rest) (ds (factors (geom_of (a_c lvl) s0 s1)) lvl).
+Proof. reflexivity. Qed.
+
+(* compute_dyadic_scales on generated scales that are pairwise compat: no
+   error, and every level is the whole previous level downscaled once *)
+Theorem pyramid_exact : forall ch scales lvl lvl',
+  all_pairs_ok compat ch scales = true ->
+  (forall s0, hd_error scales = Some s0 -> a_sh lvl = sg_size s0) -> a_c lvl = ch ->
+  arr_eq lvl lvl' ->
+  exists out, pyramid ds poison ch scales lvl = Ok out /\
+              Forall2 arr_eq out (pyramid_ref ds scales lvl').
+Proof.
+  intros ch scales. induction scales as [|s0 rest IH]; intros lvl lvl' Hall Hsh Hch Heq.
+  - exists []. split; [reflexivity | constructor].
+  - destruct rest as [|s1 rest'].
+    + exists []. split; [reflexivity | constructor].
+    + cbn [all_pairs_ok] in Hall. apply andb_true_iff in Hall. destruct Hall as [Hc Hall].
+      specialize (Hsh s0 eq_refl).
+      destruct (next_level_exact ds poison ds_shape ds_local ch s0 s1 lvl Hc Hsh Hch)
+        as [nl [Hn [Nsh [Nch Nv]]]].
+      rewrite pyramid_cons2, pyramid_ref_cons2. rewrite Hn. cbn [bind].
+      set (g := geom_of ch s0 s1) in *.
+      destruct Heq as [Es [Ec Ev]].
+      assert (Hfg : factors (geom_of (a_c lvl') s0 s1) = factors g) by reflexivity.
+      rewrite Hfg.
+      pose proof Hc as Hc'. unfold compat in Hc'. rewrite !andb_true_iff in Hc'.
+      destruct Hc' as [[Hpos Hsz] _].
+      destruct (geom_pos_spec g Hpos) as [Pos [Pns _]].
+      assert (Hfs : forall ax, get3 ax (factors g) = 1 \/ get3 ax (factors g) = 2).
+      { intro ax. rewrite get3_factors. apply ax_f_cases. }
+      assert (Hlp : forall ax, 0 < get3 ax (a_sh lvl)).
+      { intro ax. rewrite Hsh. apply (Pos ax). }
+      destruct (ds_ext (factors g) lvl lvl' Hfs Hlp (conj Es (conj Ec Ev))) as [Ds [Dc Dv]].
+      assert (Dsh : a_sh (ds (factors g) lvl) = sg_size s1).
+      { rewrite (proj1 (ds_shape _ _)), Hsh. unfold sizes_ok in Hsz. apply eqb3_spec in Hsz.
+        symmetry. exact Hsz. }
+      assert (Heq' : arr_eq nl (ds (factors g) lvl')).
+      { split; [rewrite Nsh, <- Ds, Dsh; reflexivity|].
+        split; [rewrite Nch, <- Dc, (proj2 (ds_shape _ _)); symmetry; exact Hch|].
+        intros c q Hcq Hq. rewrite Nch in Hcq. rewrite Nsh in Hq.
+        rewrite (Nv c q Hcq Hq). apply Dv.
+        - rewrite (proj2 (ds_shape _ _)), Hch. exact Hcq.
+        - rewrite Dsh. exact Hq. }
+      destruct (IH nl (ds (factors g) lvl') Hall) as [out [Ho Hf]]; try assumption.
+      { intros s Hs. inversion Hs; subst s. exact Nsh. }
+      rewrite Ho. cbn [bind]. exists (nl :: out). split; [reflexivity|].
+      constructor; assumption.
+Qed.
+
+End Loop.
